@@ -50,6 +50,9 @@ def gen_case(rng):
     case["calls"] = [call, {"n": m, "dur": [rng.choice([0.0, 0.01]) for _ in range(m)]},
                      {"n": k, "dur": [0.0] * k, "phantom": True}]
     case["strategy"] = ds.draw_strategy(rng)
+    # the promptness oracle is a bound on simulated time: the "slow node" fault (clock jumping past
+    # runnable threads) would stall the very threads whose promptness is judged
+    case["strategy"].pop("p_jump", None)
     case["sched_seed"] = rng.randrange(1 << 31)
     return case
 
